@@ -35,6 +35,17 @@ KINDS = {
     "CNOT": ("KCNOT", 2, 1, 0), "CZ": ("KCZ", 2, 1, 0), "SWAP": ("KSWAP", 2, 0, 0),
     "TOFFOLI": ("KTOFFOLI", 3, 2, 0),
 }  # name -> (coq kind, arity, n_controls, n_params)
+# native gates of quri_parts.quantinuum.circuit / quri_parts.ionq.circuit (only used by the native transpiler files)
+NATIVE_KINDS = {
+    "U1q": ("KU1q", 1, 0, 2), "ZZ": ("KZZ", 2, 0, 0), "RZZ": ("KRZZ", 2, 0, 1),
+    "XX": ("KXX", 2, 0, 1), "GPi": ("KGPi", 1, 0, 1), "GPi2": ("KGPi2", 1, 0, 1), "MS": ("KMS", 2, 0, 2),
+}
+ALLK = {**KINDS, **NATIVE_KINDS}
+NATIVE_FILES = [
+    os.path.join(REPO, "packages/quantinuum/quri_parts/quantinuum/circuit/transpile/quantinuum_native_transpiler.py"),
+    os.path.join(REPO, "packages/ionq/quri_parts/ionq/circuit/transpile/ionq_native_transpiler.py"),
+]
+NATIVE_NON_TEMPLATE = {"U1qNormalizeWithRZTranspiler"}
 
 
 class TranslateError(Exception):
@@ -54,6 +65,7 @@ class Env:
         self.gate_names_aliases = {"gate_names"}
         self.pi_names = set()
         self.np_aliases = set()
+        self.factory_names = set()   # gate factories imported by name (from quri_parts.circuit import RZ, ...)
         for node in tree.body:
             if isinstance(node, ast.ImportFrom):
                 mod = node.module or ""
@@ -67,10 +79,14 @@ class Env:
                         self.gate_names_aliases.add(local)
                     elif a.name == "pi" and mod in ("math", "numpy"):
                         self.pi_names.add(local)
+                    elif a.name in ALLK and a.asname is None and mod.startswith("quri_parts.") and mod.endswith(".circuit"):
+                        self.factory_names.add(local)
             elif isinstance(node, ast.Import):
                 for a in node.names:
                     if a.name in ("numpy", "math"):
                         self.np_aliases.add(a.asname or a.name)
+                    elif a.name.endswith(".gate_names") and a.asname:
+                        self.gate_names_aliases.add(a.asname)
 
 
 ENV = None
@@ -139,6 +155,11 @@ def _angle(node, params) -> Affine:
         if node.id in params:
             return Affine(th={params[node.id]: Fraction(1)})
         _fail(node, f"unknown name {node.id} in angle")
+    if isinstance(node, ast.Subscript):  # gate.params[i]
+        kind, i = _index_source(node, 0)
+        if kind != "param" or i >= params.get("__nparams__", 0):
+            _fail(node, "only gate.params[i] may be subscripted in an angle")
+        return Affine(th={i: Fraction(1)})
     if isinstance(node, ast.UnaryOp) and isinstance(node.op, ast.USub):
         return _angle(node.operand, params).scale(-1)
     if isinstance(node, ast.UnaryOp) and isinstance(node.op, ast.UAdd):
@@ -186,7 +207,17 @@ def _index_source(node, n_controls):
     _fail(node, f"unsupported binding source {ast.dump(node)}")
 
 
-def _decompose(func: ast.FunctionDef, arity, n_controls, nparams):
+def _factory(call_func, kinds):
+    """gates.X / X (imported by name) -> X"""
+    ch = _attr_chain(call_func)
+    if ch and ch[0] in ENV.gates_aliases and ch[1] in kinds:
+        return ch[1]
+    if isinstance(call_func, ast.Name) and call_func.id in ENV.factory_names and call_func.id in kinds:
+        return call_func.id
+    return None
+
+
+def _decompose(func: ast.FunctionDef, arity, n_controls, nparams, kinds=KINDS):
     roles, params = {}, {}
     stmts = [s for s in func.body if not (isinstance(s, ast.Expr) and isinstance(s.value, ast.Constant))]
     if not stmts or not isinstance(stmts[-1], ast.Return):
@@ -243,27 +274,39 @@ def _decompose(func: ast.FunctionDef, arity, n_controls, nparams):
     ret = stmts[-1].value
     if not isinstance(ret, ast.List):
         _fail(stmts[-1], "decompose must return a list literal")
+    return _gate_list(ret, roles, params, arity, n_controls, nparams, kinds)
+
+
+def _gate_list(ret: ast.List, roles, params, arity, n_controls, nparams, kinds):
+    """list literal of gate-factory calls -> [{"name", "roles", "angles"}]"""
     out = []
     for call in ret.elts:
         if not isinstance(call, ast.Call) or call.keywords:
             _fail(call, "list element must be a positional gate-factory call")
-        ch = _attr_chain(call.func)
-        if not ch or ch[0] not in ENV.gates_aliases or ch[1] not in KINDS:
+        fname = _factory(call.func, kinds)
+        if fname is None:
             _fail(call, f"unsupported gate factory {ast.dump(call.func)}")
-        kind, ar, _nc, npar = KINDS[ch[1]]
+        ch = (None, fname)
+        kind, ar, _nc, npar = kinds[fname]
         if len(call.args) != ar + npar:
             _fail(call, f"wrong argument count for {ch[1]}")
         rs = []
         for a in call.args[:ar]:
-            if not isinstance(a, ast.Name) or a.id not in roles:
-                _fail(a, "qubit argument must be a bound role name")
-            rs.append(roles[a.id])
-        angs = [_angle(a, params).to_json(nparams) for a in call.args[ar:]]
+            if isinstance(a, ast.Name) and a.id in roles:
+                rs.append(roles[a.id])
+                continue
+            if isinstance(a, ast.Subscript):  # gate.target_indices[i] / gate.control_indices[i] written in place
+                kind_, i = _index_source(a, n_controls)
+                if kind_ == "role" and i < arity:
+                    rs.append(i)
+                    continue
+            _fail(a, "qubit argument must be a bound role name")
+        angs = [_angle(a, dict(params, __nparams__=nparams)).to_json(nparams) for a in call.args[ar:]]
         out.append({"name": ch[1], "roles": rs, "angles": angs})
     return out
 
 
-def extract(files=None, skip=NON_TEMPLATE, base="GateKindDecomposer"):
+def extract(files=None, skip=NON_TEMPLATE, base="GateKindDecomposer", kinds=KINDS):
     res = {}
     for path in files or FILES:
         tree = ast.parse(open(path).read(), path)
@@ -287,13 +330,13 @@ def extract(files=None, skip=NON_TEMPLATE, base="GateKindDecomposer"):
                     raise TranslateError("empty target list")
                 sigs = set()
                 for t in tnames:
-                    if t not in KINDS:
+                    if t not in kinds:
                         raise TranslateError(f"target kind {t} outside the modelled vocabulary")
-                    sigs.add(KINDS[t][1:])
+                    sigs.add(kinds[t][1:])
                 if len(sigs) != 1:
                     raise TranslateError("target kinds with different signatures")
                 ar, nc, npar = sigs.pop()
-                body = _decompose(funcs["decompose"], ar, nc, npar)
+                body = _decompose(funcs["decompose"], ar, nc, npar, kinds)
             except TranslateError as e:
                 raise TranslateError(f"{os.path.basename(path)}:{node.name}: {e}") from None
             res[node.name] = {"targets": tnames, "body": body, "file": os.path.relpath(path, REPO),
@@ -312,7 +355,7 @@ def coq_ang(a) -> str:
 def coq_gate(g) -> str:
     rs = "; ".join(str(r) for r in g["roles"])
     angs = "; ".join(coq_ang(a) for a in g["angles"])
-    return f"mkG {KINDS[g['name']][0]} [{rs}]%nat [{angs}]"
+    return f"mkG {ALLK[g['name']][0]} [{rs}]%nat [{angs}]"
 
 
 def emit_coq(tmpls: dict, modname: str) -> str:
@@ -324,7 +367,7 @@ def emit_coq(tmpls: dict, modname: str) -> str:
     for cname in sorted(tmpls):
         t = tmpls[cname]
         body = ";\n     ".join(coq_gate(g) for g in t["body"])
-        targets = "; ".join(KINDS[n][0] for n in t["targets"])
+        targets = "; ".join(ALLK[n][0] for n in t["targets"])
         out.append(f"Definition tmpl_{cname} : template :=\n  mkT \"{cname}\" [{targets}]\n    [{body}].\n")
         names.append(f"tmpl_{cname}")
     out.append(f"Definition {modname}_all : list template :=\n  [" + ";\n   ".join(names) + "].\n")
@@ -335,6 +378,16 @@ def run(ctx_gen_dir: str, json_path: str, modname: str = "templates") -> dict:
     t = extract()
     with open(os.path.join(ctx_gen_dir, f"{modname}.v"), "w") as f:
         f.write(emit_coq(t, modname))
+    with open(json_path, "w") as f:
+        json.dump(t, f, indent=1)
+    return t
+
+
+def run_native(ctx_gen_dir: str, json_path: str) -> dict:
+    """templates of the Quantinuum / IonQ native transpiler files (vocabulary extended by the native gates)"""
+    t = extract(NATIVE_FILES, NATIVE_NON_TEMPLATE, kinds=ALLK)
+    with open(os.path.join(ctx_gen_dir, "native.v"), "w") as f:
+        f.write(emit_coq(t, "native"))
     with open(json_path, "w") as f:
         json.dump(t, f, indent=1)
     return t
